@@ -49,7 +49,9 @@ def check(ctx):
         want = [A.at(g, s) for s in ("self.grid_size", "self.grid_limit", "self.constraints.pos_basis", "self.constraints.neg_basis",
                                      "self.constraints.neg_basis_present",
                                      "self.constraints.default_objective_lambda_vec is not None", "self.grid_offset")]
-        ok = len(g.data["args"]) == 7 and all(A.eq(a, w) for a, w in zip(g.data["args"], want))
+        names7 = ("grid_size", "grid_limit", "pos_basis", "neg_basis", "neg_allowed", "force_L1_norm", "grid_offset")
+        given7 = [arg(g, i_, nm_) for i_, nm_ in enumerate(names7)]   # by position or by keyword
+        ok = len(g.data["args"]) + len(g.data["kwargs"]) == 7 and all(a is not None and A.eq(a, w) for a, w in zip(given7, want))
         cg = A.C.canon(grid)
         ok = ok and cg.op == "ite" and A.C.canon(A.at(L, "self.grid")) in (cg.args[1], cg.args[2])
     ctx.ob("R09.4", fq, gen[0].node if gen else None, ok, "the grid is the supplied one, or generated from (grid_size, "
@@ -376,6 +378,8 @@ def _r093_selection(ctx):
             and v.args[1][0].args[0] is glob("builtins.min") and v.args[1][0].args[1][0] is v.args[0].args[0]:
         losses = v.args[0].args[0]
         ok = True
+        if losses.op != "comp" and A.C.canon(losses).op == "comp":
+            losses = A.C.canon(losses)     # list(map(loss, range(n))) and similar spellings of the comprehension
         if losses.op == "comp" and losses.args[0] == "list":
             elt, gens = losses.args[1], losses.args[2]
             k = mk("elem", gens[0][0])
